@@ -20,7 +20,7 @@ RULE = ("user/group spellings {name, numeric id, only user, only group, user wit
         "violation. non-trivial = a generation other than the first was observed; distinct by cell")
 ASSUMPTIONS = [
     "requires root (the sandbox runs as root); without root the check is inconclusive",
-    "accounts used: nobody/nogroup (65534), daemon (1), games group (60); no account in the image has supplementary groups, so the "
+    "accounts used: nobody/nogroup (65534), daemon (1), games (uid 5, gid 60), man (uid 6, gid 12); no account in the image has supplementary groups, so the "
     "initgroups oracle compares with getgrouplist(user, gid) = [gid]",
 ]
 BUDGET = {"quick": (16, 0), "thorough": (16, 0)}
@@ -28,6 +28,7 @@ BUDGET = {"quick": (16, 0), "thorough": (16, 0)}
 SPELLINGS = [
     ("nobody", "nogroup"), ("65534", "65534"), ("nobody", None), (None, "nogroup"), ("nobody", "games"), ("daemon", "daemon"),
     (None, "65534"), ("1", None), ("54321", "nogroup"),
+    ("games", "games"), ("man", "man"),       # the same NAME in passwd and group, with different numeric ids (5/60, 6/12)
 ]
 HISTORIES = ["kill", "hup", "usr2", "hup-rebind"]
 KINDS = ["sync", "gthread", "gevent", "eventlet"]
